@@ -1,6 +1,7 @@
 import Srctools.Proofs.C15
 import Srctools.Proofs.C15Struct
 import Srctools.Proofs.C15Compute
+import Srctools.Proofs.C15Resave
 import Srctools.Model.C15File
 import Srctools.Gen.Vtf
 /-!
@@ -683,6 +684,237 @@ theorem C15_mip_generation_average (a b k : Nat) (hk : k + 1 ≤ min a b) (d0 : 
     have e : 2 ^ (a - k) = 2 * 2 ^ (a - (k + 1)) := by
       rw [show a - k = (a - (k + 1)) + 1 by omega, Nat.pow_succ]; ring
     simp only [Option.getD_some, B.2, S, e, prev]
+
+/-! ## Saving what was read -/
+
+/-- **Re-saving reproduces the file (after `compute_mipmaps`).** Let `file` be what `save` lays
+out for the (already mip-computed) object `v`. The object `VTF.read` returns for it
+(`objOfRead`: every frame lazy, its content what `load()` decodes) is laid out by `save` as exactly
+the same bytes — for the lawful formats (all writable ones but RGB565/BGR565), byte-valued pixels. -/
+theorem C15_resave_assemble (v : Vtf) (minor sheetVer : Nat) (asw : Bool) (file : List Nat)
+    (h : assemble v minor sheetVer asw = .ok file) (hwf : saveWF v minor sheetVer = true)
+    (hpx : pixelsWF v minor = true) (hfm : formatsLawful v = true) :
+    assemble (objOfRead file (viewOf v minor sheetVer (lowLen v))) minor sheetVer asw = .ok file := by
+  have R := assemble_roundtrip v minor sheetVer asw file h hwf
+  have hd := saveWF_depth v minor sheetVer hwf
+  simp only [formatsLawful, Bool.and_eq_true, Bool.or_eq_true, List.contains_iff_mem, beq_iff_eq] at hfm
+  obtain ⟨hfmt, hlfmt⟩ := hfm
+  simp only [pixelsWF, Bool.and_eq_true, List.all_eq_true, decide_eq_true_eq] at hpx
+  obtain ⟨hpxLow, hpxFr⟩ := hpx
+  -- what `assemble v` did
+  unfold assemble at h
+  cases hlowE : encodeLow v with
+  | error e => simp [hlowE] at h
+  | ok lowBytes =>
+    cases hblk : (fileKeys v.mipCount v.frameCount (depthSeq v.flags minor v.depth)).mapM (encodeKey v) with
+    | error e => simp [hlowE, hblk] at h
+    | ok blocks =>
+      simp only [hlowE, hblk, Except.ok.injEq] at h
+      -- the thumbnail of the read object encodes to the same bytes
+      have hlow : encodeLow (objOfRead file (viewOf v minor sheetVer (lowLen v))) = .ok lowBytes := by
+        unfold encodeLow at hlowE ⊢
+        by_cases hn : v.lowFmt = fmtNone
+        · simpa [objOfRead, viewOf, hn] using hlowE
+        · have hlaw : v.lowFmt ∈ lawfulInds := by
+            rcases hlfmt with h0 | h0
+            · exact absurd h0 hn
+            · exact h0
+          simp only [ne_eq, hn, not_false_eq_true, if_true] at hlowE
+          have E := encodeFrame_load_some _ _ _ hlowE
+          have F := lawful_facts _ hlaw
+          have hbytes : ∀ b ∈ v.low.load.data.getD [], b < 256 := fun b hb => hpxLow b hb
+          have RT := C15_frame_roundtrip v.lowFmt hlaw _ hbytes
+          have hsl := R.2.1 hn
+          have := reencode v.lowFmt v.low.w v.low.h (lowOff v minor sheetVer) file
+            (v.low.load.data.getD []) F.1 F.2.1 F.2.2 E.2 hsl RT.2
+            (by rw [RT.1, quantImg_length, E.2, Nat.mul_assoc, Nat.mul_div_cancel_left _ (by decide : 0 < 4)])
+          simp only [objOfRead, viewOf, ne_eq, hn, not_false_eq_true, if_true]
+          rw [this, E.1]
+      -- so does every frame
+      have hkeys : fileKeys (objOfRead file (viewOf v minor sheetVer (lowLen v))).mipCount
+          (objOfRead file (viewOf v minor sheetVer (lowLen v))).frameCount
+          (depthSeq (objOfRead file (viewOf v minor sheetVer (lowLen v))).flags minor
+            (objOfRead file (viewOf v minor sheetVer (lowLen v))).depth)
+          = fileKeys v.mipCount v.frameCount (depthSeq v.flags minor v.depth) := by
+        simp [objOfRead, viewOf, hd]
+      have hnd : ((viewOf v minor sheetVer (lowLen v)).frames.map (·.1)).Nodup := by
+        have : (viewOf v minor sheetVer (lowLen v)).frames.map (·.1)
+            = fileKeys v.mipCount v.frameCount (depthSeq v.flags minor v.depth) := by
+          simp only [viewOf, hd]; exact layoutFrom_keys _ _ _ _
+        rw [this]; exact fileKeys_nodup _ _ _ (depthSeq_nodup _ _ _)
+      have hF := mapM_ok_forall2 _ _ _ hblk
+      have hblocks : (fileKeys v.mipCount v.frameCount (depthSeq v.flags minor v.depth)).mapM
+          (encodeKey (objOfRead file (viewOf v minor sheetVer (lowLen v)))) = .ok blocks := by
+        rw [← hblk]
+        apply mapM_congr_mem
+        intro k hk
+        obtain ⟨e, he, hek, hedim, fr, hfk, hdim, hsl⟩ := forall2_mem_right R.2.2 k hk
+        obtain ⟨b, _, hb⟩ := forall2_mem_left hF k hk
+        have hbv : encodeFrame v.fmt fr.load = .ok b := by simpa [encodeKey, hfk] using hb
+        have E := encodeFrame_load_some _ _ _ hbv
+        have F := lawful_facts _ hfmt
+        have hbytes : ∀ x ∈ fr.load.data.getD [], x < 256 := by
+          have := hpxFr k hk
+          simp only [hfk, List.all_eq_true, decide_eq_true_eq] at this
+          exact this
+        have RT := C15_frame_roundtrip v.fmt hfmt _ hbytes
+        have hw : e.2.1 = fr.w := by have := congrArg Prod.fst (hedim.trans hdim.symm); simpa using this
+        have hh : e.2.2.1 = fr.h := by have := congrArg Prod.snd (hedim.trans hdim.symm); simpa using this
+        have hlook := lookup_map_of_mem
+          (fun (e : Key × Nat × Nat × Nat) => (⟨e.2.1, e.2.2.1, none,
+            decodeOpt file v.fmt e.2.1 e.2.2.1 e.2.2.2⟩ : FrameM)) (·.1)
+          (viewOf v minor sheetVer (lowLen v)).frames hnd e he
+        have hfo : frameFor (objOfRead file (viewOf v minor sheetVer (lowLen v))) k
+            = .ok ⟨e.2.1, e.2.2.1, none, decodeOpt file v.fmt e.2.1 e.2.2.1 e.2.2.2⟩ := by
+          rw [← hek]
+          simp only [frameFor, objOfRead]
+          have : (viewOf v minor sheetVer (lowLen v)).fmt = v.fmt := rfl
+          simp only [this, hlook]
+          rfl
+        have hre := reencode v.fmt e.2.1 e.2.2.1 e.2.2.2 file (fr.load.data.getD []) F.1 F.2.1 F.2.2
+          (by rw [hw, hh]; exact E.2) hsl RT.2
+          (by rw [RT.1, quantImg_length, E.2, hw, hh, Nat.mul_assoc,
+            Nat.mul_div_cancel_left _ (by decide : 0 < 4)])
+        have hofmt : (objOfRead file (viewOf v minor sheetVer (lowLen v))).fmt = v.fmt := rfl
+        simp only [encodeKey, hfo, hfk, hofmt, hre, hbv, E.1]
+      unfold assemble
+      rw [hlow, hkeys, hblocks]
+      simp only []
+      rw [fileBytes_objOfRead v minor sheetVer asw file lowBytes blocks (lowLen v) hwf, h]
+
+/-- **The object read back holds the quantised pixels.** With `file` laid out for the (mip-computed)
+object `v`: the object `VTF.read` returns has, for every key of the frame table, a lazy frame of the
+same size whose content (what `Frame.load()` decodes) is `quant` of what `v`'s frame held — the
+pixels themselves for the 8-bit formats; likewise the thumbnail. -/
+theorem C15_read_object (v : Vtf) (minor sheetVer : Nat) (asw : Bool) (file : List Nat)
+    (h : assemble v minor sheetVer asw = .ok file) (hwf : saveWF v minor sheetVer = true)
+    (hpx : pixelsWF v minor = true) (hfm : formatsLawful v = true) :
+    (v.lowFmt ≠ fmtNone → (objOfRead file (viewOf v minor sheetVer (lowLen v))).low
+        = ⟨v.low.w, v.low.h, none, some (quantImg v.lowFmt (v.low.load.data.getD []))⟩) ∧
+    ∀ k ∈ fileKeys v.mipCount v.frameCount (depthSeq v.flags minor v.depth),
+      ∃ fr, frameFor v k = .ok fr ∧
+        frameFor (objOfRead file (viewOf v minor sheetVer (lowLen v))) k
+          = .ok ⟨fr.w, fr.h, none, some (quantImg v.fmt (fr.load.data.getD []))⟩ := by
+  have R := assemble_roundtrip v minor sheetVer asw file h hwf
+  have hd := saveWF_depth v minor sheetVer hwf
+  simp only [formatsLawful, Bool.and_eq_true, Bool.or_eq_true, List.contains_iff_mem, beq_iff_eq] at hfm
+  obtain ⟨hfmt, hlfmt⟩ := hfm
+  simp only [pixelsWF, Bool.and_eq_true, List.all_eq_true, decide_eq_true_eq] at hpx
+  obtain ⟨hpxLow, hpxFr⟩ := hpx
+  unfold assemble at h
+  cases hlowE : encodeLow v with
+  | error e => simp [hlowE] at h
+  | ok lowBytes =>
+    cases hblk : (fileKeys v.mipCount v.frameCount (depthSeq v.flags minor v.depth)).mapM (encodeKey v) with
+    | error e => simp [hlowE, hblk] at h
+    | ok blocks =>
+      constructor
+      · intro hn
+        have hlaw : v.lowFmt ∈ lawfulInds := by
+          rcases hlfmt with h0 | h0
+          · exact absurd h0 hn
+          · exact h0
+        unfold encodeLow at hlowE
+        simp only [ne_eq, hn, not_false_eq_true, if_true] at hlowE
+        have E := encodeFrame_load_some _ _ _ hlowE
+        have hbytes : ∀ b ∈ v.low.load.data.getD [], b < 256 := fun b hb => hpxLow b hb
+        have P := C15_file_pixels file v.lowFmt v.low.w v.low.h (lowOff v minor sheetVer)
+          (v.low.load.data.getD []) hlaw hbytes E.2 (R.2.1 hn)
+        simp [objOfRead, viewOf, hn, decodeOpt, P]
+      · intro k hk
+        have hnd : ((viewOf v minor sheetVer (lowLen v)).frames.map (·.1)).Nodup := by
+          have : (viewOf v minor sheetVer (lowLen v)).frames.map (·.1)
+              = fileKeys v.mipCount v.frameCount (depthSeq v.flags minor v.depth) := by
+            simp only [viewOf, hd]; exact layoutFrom_keys _ _ _ _
+          rw [this]; exact fileKeys_nodup _ _ _ (depthSeq_nodup _ _ _)
+        have hF := mapM_ok_forall2 _ _ _ hblk
+        obtain ⟨e, he, hek, hedim, fr, hfk, hdim, hsl⟩ := forall2_mem_right R.2.2 k hk
+        obtain ⟨b, _, hb⟩ := forall2_mem_left hF k hk
+        have hbv : encodeFrame v.fmt fr.load = .ok b := by simpa [encodeKey, hfk] using hb
+        have E := encodeFrame_load_some _ _ _ hbv
+        have hbytes : ∀ x ∈ fr.load.data.getD [], x < 256 := by
+          have := hpxFr k hk
+          simp only [hfk, List.all_eq_true, decide_eq_true_eq] at this
+          exact this
+        have hw : e.2.1 = fr.w := by have := congrArg Prod.fst (hedim.trans hdim.symm); simpa using this
+        have hh : e.2.2.1 = fr.h := by have := congrArg Prod.snd (hedim.trans hdim.symm); simpa using this
+        have P := C15_file_pixels file v.fmt e.2.1 e.2.2.1 e.2.2.2 (fr.load.data.getD []) hfmt hbytes
+          (by rw [hw, hh]; exact E.2) hsl
+        have hlook := lookup_map_of_mem
+          (fun (e : Key × Nat × Nat × Nat) => (⟨e.2.1, e.2.2.1, none,
+            decodeOpt file v.fmt e.2.1 e.2.2.1 e.2.2.2⟩ : FrameM)) (·.1)
+          (viewOf v minor sheetVer (lowLen v)).frames hnd e he
+        refine ⟨fr, hfk, ?_⟩
+        have hfo : frameFor (objOfRead file (viewOf v minor sheetVer (lowLen v))) k
+            = .ok ⟨e.2.1, e.2.2.1, none, decodeOpt file v.fmt e.2.1 e.2.2.1 e.2.2.2⟩ := by
+          rw [← hek]
+          simp only [frameFor, objOfRead]
+          have : (viewOf v minor sheetVer (lowLen v)).fmt = v.fmt := rfl
+          simp only [this, hlook]
+          rfl
+        rw [hfo]
+        simp only [decodeOpt, P]
+        rw [hw, hh]
+
+/-- **`save (read (save v)) = save v`.** For a well-formed object with lawful formats and byte
+pixels: if saving succeeds, and saving the lazily re-read object succeeds, both write the same bytes.
+(The second `compute_mipmaps` regenerates mipmaps and thumbnail from the lazy frames, but every lazy
+frame loads its file content afterwards, so nothing of it is written. That it succeeds — it needs
+power-of-two sizes — is established by the correspondence.) -/
+theorem C15_resave_idem (v : Vtf) (minor sheetVer : Nat) (asw : Bool) (file file2 : List Nat)
+    (h : saveFile v minor sheetVer asw = .ok file) (hwf : saveWF v minor sheetVer = true)
+    (hfm : formatsLawful v = true)
+    (hpx : ∀ v', applyCompute v 4 = .ok v' → pixelsWF v' minor = true)
+    (h2 : saveFile (objOfRead file (viewOf v minor sheetVer (lowLen v))) minor sheetVer asw = .ok file2) :
+    file2 = file := by
+  -- first save
+  have hv' : ∃ v', applyCompute v 4 = .ok v' ∧ assemble v' minor sheetVer asw = .ok file := by
+    unfold saveFile at h
+    split at h
+    · simp at h
+    · split at h
+      · simp at h
+      · split at h
+        · simp at h
+        · cases hc : applyCompute v 4 with
+          | error e => simp [hc] at h
+          | ok v' => exact ⟨v', rfl, by simpa [hc] using h⟩
+  obtain ⟨v', hc, ha⟩ := hv'
+  obtain ⟨hwf', hview⟩ := saveWF_applyCompute v v' 4 minor sheetVer hc hwf
+  obtain ⟨frames', low', rfl, _, _, hw, hh, _⟩ := applyCompute_shape v v' 4 hc
+  have hfm' : formatsLawful { v with frames := frames', low := low' } = true := hfm
+  have hpx' := hpx _ hc
+  rw [← hview] at h2
+  have RA := C15_resave_assemble _ minor sheetVer asw file ha hwf' hpx' hfm'
+  have RO := C15_read_object _ minor sheetVer asw file ha hwf' hpx' hfm'
+  have hd := saveWF_depth _ minor sheetVer hwf'
+  -- second save
+  unfold saveFile at h2
+  split at h2
+  · simp at h2
+  · split at h2
+    · simp at h2
+    · split at h2
+      · simp at h2
+      · cases hc2 : applyCompute (objOfRead file (viewOf { v with frames := frames', low := low' } minor sheetVer
+            (lowLen { v with frames := frames', low := low' }))) 4 with
+        | error e => simp [hc2] at h2
+        | ok o' =>
+          simp only [hc2] at h2
+          rw [assemble_applyCompute_lazy _ o' 4 minor sheetVer asw hc2
+            (by
+              intro hn
+              have := RO.1 (by simpa [objOfRead, viewOf] using hn)
+              exact ⟨_, by rw [this]⟩)
+            (by
+              intro k hk fr hfk
+              have hk' : k ∈ fileKeys v.mipCount v.frameCount (depthSeq v.flags minor v.depth) := by
+                simpa [objOfRead, viewOf, hd] using hk
+              obtain ⟨fr0, _, hfo⟩ := RO.2 k hk'
+              rw [hfo] at hfk
+              cases hfk
+              exact ⟨_, rfl⟩), RA] at h2
+          exact (Except.ok.inj h2).symm
 
 /-! ## Non-vacuity: the hypotheses are satisfiable, and the laws visibly bite -/
 
